@@ -1,2 +1,218 @@
+"""Engine E1: clang++-14 -> LLVM IR -> (e1/ll2c.py) C -> CBMC 6.11.
+
+For code that is NOT generic in the number type (lib/wrapint.cpp, lib/safeint.cpp, the GMP
+wrappers of lib/bignums.cpp over an inline GMP model, patricia bit kernels, finite lattices).
+Every run: translate from /repo's current sources, validate the generated C against a native
+g++ build of the same harness with the real libraries on random vectors, check a vacuity
+witness, then decide with CBMC (unwinding assertions on).
+"""
+import hashlib, json, os, re, subprocess, time
+
+HERE = os.path.dirname(os.path.abspath(__file__))
+REPO = os.environ.get("VERIF_REPO", "/repo")
+CLANG = "clang++-14"
+
+
+def sh(cmd, timeout=None, **kw):
+    try:
+        return subprocess.run(cmd, stdout=subprocess.PIPE, stderr=subprocess.STDOUT, text=True, timeout=timeout, **kw)
+    except subprocess.TimeoutExpired as e:
+        class R:
+            returncode = -9
+            stdout = "TIMEOUT"
+        return R()
+
+
+def cxxflags(build, gmp_model, extra=()):
+    f = ["-std=c++17", "-fno-exceptions", "-fno-vectorize", "-fno-slp-vectorize", "-fno-unroll-loops", "-DNDEBUG", "-w"]
+    if gmp_model:
+        f += ["-I" + os.path.join(HERE, "stub")]
+    f += ["-I" + build.inc, "-I" + os.path.join(REPO, "include"), "-I" + os.path.join(HERE, "h")]
+    return f + list(extra)
+
+
+def translate(build, unit, entries, libs, gmp_model, wd, defines=()):
+    """harness e1/h/<unit>.cpp (+ /repo/lib/<libs>.cpp) -> reduced IR -> C.  Returns path of the C file."""
+    src = os.path.join(HERE, "h", unit + ".cpp")
+    base = os.path.join(wd, unit)
+    fl = cxxflags(build, gmp_model, ["-D" + d for d in defines])
+    lls = []
+    for s, o in [(src, base + ".ll")] + [(os.path.join(REPO, "lib", l + ".cpp"), os.path.join(wd, "lib_%s.ll" % l)) for l in libs]:
+        r = sh([CLANG] + fl + ["-O1", "-Xclang", "-disable-llvm-passes", "-S", "-emit-llvm", s, "-o", o])
+        if r.returncode != 0:
+            raise RuntimeError("clang failed on %s:\n%s" % (s, r.stdout[-3000:]))
+        lls.append(o)
+    r = sh(["llvm-link-14", "-S"] + lls + ["-o", base + ".all.ll"])
+    if r.returncode != 0:
+        raise RuntimeError("llvm-link failed: " + r.stdout[-2000:])
+    # statistics calls (string concatenation in every operation) are deleted: declared readnone
+    txt = open(base + ".all.ll").read()
+    txt = re.sub(r"(?m)^(declare .*@_ZN4crab(?:9CrabStats|15ScopedCrabStats)[^\n]*\)) (?:unnamed_addr )?#\d+$", r"\1 readnone willreturn nounwind", txt)
+    open(base + ".all.ll", "w").write(txt)
+    sh(["python3", os.path.join(HERE, "stubfn.py"), base + ".all.ll", r"_Sp_counted_base.*(_M_releaseEv|_M_release_last_useEv|_M_release_last_use_coldEv)$"])
+    r = sh(["opt-14", "-S", "-internalize", "-internalize-public-api-list=" + ",".join(entries), "-globaldce", base + ".all.ll", "-o", base + ".int.ll"])
+    if r.returncode != 0:
+        raise RuntimeError("opt internalize failed: " + r.stdout[-2000:])
+    r = sh(["opt-14", "-S", "-O2", "-inline-threshold=2000", "-vectorize-loops=false", "-vectorize-slp=false", "-unroll-threshold=0", base + ".int.ll", "-o", base + ".red.ll"])
+    if r.returncode != 0:
+        raise RuntimeError("opt -O2 failed: " + r.stdout[-2000:])
+    r = sh(["python3", os.path.join(HERE, "ll2c.py"), base + ".red.ll", base + ".c"])
+    if r.returncode != 0 or not os.path.exists(base + ".c"):
+        raise RuntimeError("ll2c failed: " + r.stdout[-3000:])
+    # functions that are part of the encoding: everything reachable from the entry before inlining
+    defs = re.findall(r"(?m)^define [^@]*@\"?([^\s(\"]+)\"?\(", open(base + ".int.ll").read())
+    return base + ".c", defs
+
+
+def demangle(names):
+    r = subprocess.run(["c++filt"], input="\n".join(names), stdout=subprocess.PIPE, text=True)
+    return r.stdout.splitlines()
+
+
+def native_validate(build, unit, entry, libs, cfile, wd, nvec, seed, defines=()):
+    """generated C (gcc) vs native g++ build with the real libraries: identical v_assert outcome logs"""
+    drv = os.path.join(HERE, "native_model.c")
+    a = os.path.join(wd, "%s_gen_%s" % (unit, entry))
+    b = os.path.join(wd, "%s_nat_%s" % (unit, entry))
+    # the generated C is compiled by gcc and linked (g++) with the real library objects for whatever stayed external
+    r = sh(["gcc", "-O1", "-w", "-fwrapv", "-I" + HERE, "-c", cfile, "-o", a + ".o"])
+    if r.returncode == 0:
+        r = sh(["gcc", "-O1", "-w", "-I" + HERE, "-DENTRY=" + entry, "-c", drv, "-o", a + "_drv.o"])
+    if r.returncode == 0:
+        r = sh(["g++", a + ".o", a + "_drv.o", build.lib("conc"), "-lgmp", "-o", a])
+    if r.returncode != 0:
+        return None, "gcc of generated C failed: " + r.stdout[-1500:]
+    src = os.path.join(HERE, "h", unit + ".cpp")
+    fl = ["-std=c++17", "-O1", "-w", "-I" + build.inc, "-I" + os.path.join(REPO, "include"), "-I" + os.path.join(HERE, "h")] + ["-D" + d for d in defines]
+    r = sh(["g++"] + fl + ["-DENTRY=" + entry, src, "-x", "c++", drv, "-x", "none", build.lib("conc"), "-lgmp", "-Wl,--wrap=exit", "-o", b])
+    if r.returncode != 0:
+        return None, "native g++ build failed: " + r.stdout[-1500:]
+    ra = sh([a, str(nvec), str(seed)], timeout=300)
+    rb = sh([b, str(nvec), str(seed)], timeout=300)
+    if ra.returncode != 0 or rb.returncode != 0:
+        return None, "validation run failed rc=%s/%s %s %s" % (ra.returncode, rb.returncode, ra.stdout[-300:], rb.stdout[-300:])
+    la = {l.split()[1]: l for l in ra.stdout.splitlines() if l.startswith("vec")}
+    lb = {l.split()[1]: l for l in rb.stdout.splitlines() if l.startswith("vec")}
+    compared = 0
+    for i, x in la.items():
+        if "MODELRANGE" in x:
+            continue  # the value left the GMP model's range: the generated C stops there
+        if i not in lb:
+            continue  # the native run reached its quota of admissible vectors earlier
+        compared += 1
+        if lb[i] != x:
+            return None, "generated C and native build disagree on vector %s: '%s' vs '%s'" % (i, x, lb[i])
+    if compared < 20:
+        return None, "too few comparable vectors (%d)" % compared
+    nfail = sum(1 for l in rb.stdout.splitlines() if " FAIL" in l)
+    return (compared, nfail), None
+
+
+def cbmc(cfile, entry, unwind, timeout, wd, witness=False, trace=False):
+    model = os.path.join(HERE, "cbmc_model.c")
+    cmd = ["cbmc", cfile, model, "-I", HERE, "--function", entry, "--unwind", str(unwind), "--unwinding-assertions", "--no-malloc-may-fail", "--drop-unused-functions",
+           "--no-standard-checks", "--external-sat-solver", "kissat"]
+    if witness:
+        cmd += ["-DWITNESS"]
+    if trace:
+        cmd += ["--trace"]
+    t0 = time.time()
+    r = sh(cmd, timeout=timeout)
+    return r.stdout, time.time() - t0, cmd
+
+
 def run(build, job, workdir):
-    raise NotImplementedError
+    """returns {"job","status": ok|violation|broken, "why", "replay", "summary"}"""
+    t0 = time.time()
+    wd = os.path.join(workdir, "e1_" + hashlib.sha1(job.name.encode()).hexdigest()[:10])
+    os.makedirs(wd, exist_ok=True)
+    summ = {"job": job.name, "what": job.what, "engine": "E1", "exhaustive": False}
+    res = {"job": job, "status": "broken", "why": "", "replay": None, "summary": summ}
+    libs = list(job.args.get("libs", []))
+    gmp_model = bool(job.args.get("gmp_model", False))
+    try:
+        cfile, defs = translate(build, job.harness, [job.entry], libs, gmp_model, wd, job.defines)
+    except RuntimeError as e:
+        res["why"] = str(e)[:1500]
+        return res
+    dm = sorted(set(d for d in demangle(defs) if ("crab::" in d or "ikos::" in d) and "___print___" not in d and "crab_os" not in d))
+    summ["functions_encoded"] = dm[:40]
+    summ["ir_functions"] = len(defs)
+    # 1. translation validation on random vectors (skipped for GMP-model units: the model is not GMP)
+    if True:
+        ok, err = native_validate(build, job.harness, job.entry, libs, cfile, wd, int(job.args.get("vectors", 300)), int(job.args.get("seed", 1)), job.defines)
+        if err:
+            res["why"] = "ENCODING-MISMATCH: " + err
+            return res
+        summ["validated_vectors"] = ok[0]
+        summ["native_failures_on_random_vectors"] = ok[1]
+        if ok[1] > 0:
+            # the REAL code fails the harness assertion on a concrete vector: a violation whatever the solver says
+            b = os.path.join(wd, "%s_nat_%s" % (job.harness, job.entry))
+            rr = sh([b, str(int(job.args.get("vectors", 300))), str(int(job.args.get("seed", 1)))], timeout=300)
+            bad = [l for l in rr.stdout.splitlines() if " FAIL" in l][:3]
+            rp = os.path.join(os.path.dirname(HERE), "replays", "E1")
+            os.makedirs(rp, exist_ok=True)
+            rpf = os.path.join(rp, "%s-%s-native.json" % (job.harness, job.entry))
+            json.dump({"engine": "E1", "harness": job.harness, "entry": job.entry, "failing_random_vectors": bad, "reproduced_on_native_build": True,
+                       "how": "native build of e1/h/%s.cpp (real libraries): prog <nvec> <seed> prints the failing vectors" % job.harness}, open(rpf, "w"), indent=1)
+            res["status"] = "violation"
+            res["replay"] = rpf
+            res["why"] = "native build of the harness fails on random vectors: %s" % bad
+            return res
+    # 2. vacuity witness: with -DWITNESS every v_assert is assert(0) and must be refuted
+    out, dt, _ = cbmc(cfile, job.entry, job.unwind or 2, job.timeout, wd, witness=True)
+    if "VERIFICATION FAILED" not in out:
+        res["why"] = "BROKEN-HARNESS: vacuity witness not refuted (%s)" % out[-400:].replace("\n", " ")
+        return res
+    # 3. the decision
+    out, dt, cmd = cbmc(cfile, job.entry, job.unwind or 2, job.timeout, wd)
+    summ["solver_s"] = round(dt, 1)
+    summ["wall_s"] = round(time.time() - t0, 1)
+    m = re.search(r"\*\* (\d+) of (\d+) failed", out)
+    vcc = re.search(r"Generated (\d+) VCC\(s\), (\d+) remaining", out)
+    summ["vcc"] = int(vcc.group(2)) if vcc else 0
+    if m:
+        summ["properties_checked"] = int(m.group(2))
+        summ["properties_proved"] = int(m.group(2)) - int(m.group(1))
+    summ["sample"] = {"job": job.name, "cbmc": " ".join(os.path.basename(c) if c.startswith("/") else c for c in cmd[1:]), "result": "SUCCESSFUL" if "VERIFICATION SUCCESSFUL" in out else "not successful"}
+    if "VERIFICATION SUCCESSFUL" in out:
+        summ["exhaustive"] = True
+        res["status"] = "ok"
+        return res
+    if "VERIFICATION FAILED" in out:
+        failed = re.findall(r"\[([^\]]+)\] line \d+ ([^:]*): FAILURE", out)
+        if any("unwinding" in f[0] or "unwind" in f[1] for f in failed):
+            res["why"] = "NO-VERDICT: unwinding assertion failed (bound %s too small)" % job.unwind
+            return res
+        if any("gmp-model" in f[1] for f in failed):
+            res["why"] = "NO-VERDICT: a value leaves the GMP model range: " + str(failed[:3])
+            return res
+        # counterexample: get the inputs from the trace and replay on the native build
+        tout, _, _ = cbmc(cfile, job.entry, job.unwind or 2, job.timeout, wd, trace=True)
+        last = {}
+        for i, v in re.findall(r"(?m)^\s*ND_LOG\[(\d+)l?\]=(-?\d+)", tout):
+            last[int(i)] = v
+        nn = re.findall(r"(?m)^\s*ND_N=(\d+)", tout)
+        nds = [last.get(i, "0") for i in range(int(nn[-1]) if nn else 0)]
+        rp = os.path.join(os.path.dirname(HERE), "replays", job.pid if hasattr(job, "pid") else "E1")
+        os.makedirs(rp, exist_ok=True)
+        rpf = os.path.join(rp, "%s-%s.json" % (job.harness, job.entry))
+        confirmed = None
+        if True:
+            b = os.path.join(wd, "%s_nat_%s" % (job.harness, job.entry))
+            vf = os.path.join(wd, "vec.txt")
+            open(vf, "w").write(" ".join(nds))
+            rr = sh([b, "replay", vf], timeout=60)
+            confirmed = " FAIL" in rr.stdout
+        json.dump({"engine": "E1", "harness": job.harness, "entry": job.entry, "nondet_inputs_in_order": nds, "failed": failed[:5],
+                   "reproduced_on_native_build": confirmed, "how": "cbmc trace; native replay: e1 native build of the harness with `replay vec.txt`"}, open(rpf, "w"), indent=1)
+        if confirmed is False:
+            res["why"] = "ENCODING-MISMATCH: CBMC counterexample %s does not reproduce on the native build" % nds[:8]
+            return res
+        res["status"] = "violation"
+        res["replay"] = rpf
+        res["why"] = "%s fails for nondet inputs %s" % (failed[:2], nds[:10])
+        return res
+    res["why"] = "NO-VERDICT: " + out[-300:].replace("\n", " ")
+    return res
